@@ -294,9 +294,9 @@ def r2_3(ctx):
 def r2_5(ctx):
     from rules import precond
     rid = "R2.5"
-    ctx.rule(rid, "withdrawing a description loses nothing: clear_generators_up_to_date() / clear_constraints_up_to_date() is reached, on every CFG path, only where the other description is known complete and the withdrawn side holds no pending rows (facts from flag tests, integrating calls and the class invariants; a possibly-empty receiver is judged in its non-empty case); otherwise the rows only the withdrawn side knew are dropped and the operation computes a different set")
+    ctx.rule(rid, "withdrawing a description loses nothing: clear_generators_up_to_date() / clear_constraints_up_to_date() is reached, on every CFG path, only where the other description is known complete and the withdrawn side holds no pending rows (facts from flag tests, integrating calls and the class invariants; a possibly-empty receiver is judged in its non-empty case); otherwise the rows only the withdrawn side knew are dropped and the operation computes a different set; and no clear_*_up_to_date() / clear_*_minimized() is reached while either pending flag may still be claimed (Status::OK: rows are pending only on two minimized, up-to-date descriptions) — a surviving pending flag makes the next process_pending_*() run on a description that was withdrawn")
     n = precond.discharge(ctx, rid, {}, only_callees=precond.DISCARDS)
-    ctx.floor(rid, n, 22, "description-withdrawing call sites")
+    ctx.floor(rid, n, 44, "description- and claim-withdrawing call sites")
 
 
 def run(ctx):
